@@ -437,7 +437,7 @@ impl LineProgram {
         // Advance the line, address, and operation index.
         let line_base = i64::from(self.line_encoding.line_base) as u64;
         let line_range = u64::from(self.line_encoding.line_range);
-        let line_advance = self.row.line as i64 - self.prev_row.line as i64;
+        let line_advance = self.row.line.wrapping_sub(self.prev_row.line) as i64;
         let op_advance = self.op_advance();
 
         // Default to special advances of 0.
